@@ -157,4 +157,23 @@ theorem fill_bytes_translated (C : Core κ β) (s : BS κ β) (dflt : Nat → β
       simp [hfit, hdl, take]
 
 
+/-- **the serde helpers as translated** (`skip_serializing_if = "is_index_oob::<T>"`, `default = "default_index::<T>"` on the field `index`; the
+attributes themselves, `is_default` and `BlockRngImpl::new` are checked by the translator): the model's serialised form omits the index
+exactly when the code's predicate says so, and the model's default index on reading is the code's -/
+theorem serde_index_translated (s : BS κ (BitVec 8)) (h : s.index < 2 ^ 32) :
+    ((ser s).index = none ↔ Effect.block.is_index_oob 256#64 (BitVec.ofNat 32 s.index) = true) ∧
+    (∀ j : Ser κ, j.index = none → (de j).index = Effect.block.default_index.toNat) ∧
+    (Block.new s.core (0#8)).index = Effect.block.default_index.toNat := by
+  have hi : (BitVec.ofNat 32 s.index).toNat = s.index := by simp only [BitVec.toNat_ofNat]; omega
+  have hd : Effect.block.default_index.toNat = 2 ^ 32 - 1 := by decide
+  refine ⟨?_, ?_, by rw [hd]; rfl⟩
+  · unfold ser Effect.block.is_index_oob
+    have h256 : ((256#64).setWidth 32).toNat = 256 := by decide
+    simp only [decide_eq_true_eq, ge_iff_le, BitVec.le_def, h256, hi]
+    by_cases hc : s.index ≥ 256 <;> simp [hc] <;> omega
+  · intro j hj
+    unfold de
+    rw [hj, hd]
+    rfl
+
 end Urandom.C03
